@@ -97,12 +97,16 @@ def gen_program(rnd):
         kinds.add("array-arithmetic")
         lines.append("A2 = Array([%s])" % ", ".join(elem() for _ in range(shape[0])))
         cnd = inp(rnd.randint(0, 1), "PrivValBool")
+        lines.append("Z0 = A + 0")
+        lines.append("Z1 = 0 + A")
+        lines.append("Z0[%s] = %s" % (index(0), elem()))
+        lines.append("Z1[%s] = %s" % (index(0), elem()))
         lines.append("S = A + A2")
         lines.append("D = A - A2")
         lines.append("M = %s * A + %d" % (inp(rnd.randint(-3, 3)), rnd.randint(0, 3)))
         lines.append("T = if_then_else(%s, A, A2)" % cnd)
         lines.append("T.assert_eq(if_then_else(%s, A, A2))" % cnd)
-        lines.append("r%d = S[%s] + D[0] * 2 + M[%d] + T[%s] + 0" % (nres, index(0), shape[0] - 1, index(0)))
+        lines.append("r%d = S[%s] + D[0] * 2 + M[%d] + T[%s] + Z0[%s] + Z1[0] * 3 + 0" % (nres, index(0), shape[0] - 1, index(0), index(0)))
         nres += 1
     if two_d and shape[0] > 1 and rnd.random() < 0.35:
         # a row read with a secret index stored at a public position, then written through a tuple index
